@@ -307,8 +307,8 @@ def check(ctx):
     # ---- the epoch constant is the day number of 1970-01-01 (constant propagation through date_to_days)
     from ..absint import const_int
     fn = 'util::date::convert::date_to_days'
-    N.run(fn, label=fn + ' [1970-01-01]', overrides={'year': lambda I, st, ty: const_int(1970, 'i32'), 'month': lambda I, st, ty: const_int(1, 'u32'),
-                                                     'day': lambda I, st, ty: const_int(1, 'u32')})
+    N.run(fn, label=fn + ' [1970-01-01]', overrides={'year@1': lambda I, st, ty: const_int(1970, 'i32'), 'month@2': lambda I, st, ty: const_int(1, 'u32'),
+                                                     'day@3': lambda I, st, ty: const_int(1, 'u32')})
     res = N.flat(fn + ' [1970-01-01]')
     good = len(res) == 1 and res[0][1][0] == 'e' and set(res[0][1][2]) == {0} and D.get_iv(res[0][0], res[0][1][2][0][0][1]) == (DAYS_TO_1970, DAYS_TO_1970)
     ctx.rule('C03-D3 epoch constant = day number of 1970-01-01', 1, 1 if good else 0)
